@@ -161,7 +161,7 @@ func (rt *realtime) judge(r *vrun.Run, sc scen, st *state, s snapshot, store *pa
 	// grace for the "observed" flag of an action that has just been signalled (bounded; the flag decides)
 	settled := st.observed.Load()
 	if sc.Kind == kWaitOnly && !settled && (isTimeoutKind(s.Res) || isCancelKind(s.Res)) {
-		for i := 0; i < 4_000 && !st.observed.Load(); i++ {
+		for i := 0; i < 400 && !st.observed.Load(); i++ {
 			time.Sleep(500 * time.Microsecond)
 		}
 		settled = st.observed.Load()
